@@ -296,7 +296,52 @@ def typed_case0(c):
     if enc_ok:
         out['rt_self'] = res(lambda: cls.from_cbor(x.to_cbor()).to_cbor())
     out['rt_ref'] = None if c.get('skip_ref') else res(lambda: cls.from_cbor(ref).to_cbor())
+    if 'x2' in c and enc_ok:
+        try:
+            out['mut'] = mutate_route(x, c)
+        except Exception as e:
+            out['mut'] = {'error': err_kind(e)}
     return out
+
+
+def morph(x, y):
+    """turn x into the content of y IN PLACE, the way callers edit a datum they already serialized: containers are edited
+    without re-assigning the field that holds them (dict clear/update, list slice assignment), nested objects of the same
+    class are edited recursively (no assignment on the outer object), everything else is a plain field assignment"""
+    for f in dataclasses_fields(x):
+        a, b = getattr(x, f.name), getattr(y, f.name)
+        if isinstance(a, PlutusData) and type(a) is type(b):
+            morph(a, b)
+        elif isinstance(a, dict) and isinstance(b, dict) and type(a) is type(b):
+            a.clear(); a.update(b)
+        elif isinstance(a, (list, IndefiniteList)) and type(a) is type(b):
+            a[:] = list(b)
+        else:
+            setattr(x, f.name, b)
+
+
+def same_dict(x, y):
+    try:
+        a = x.to_dict()
+    except Exception:
+        return True                     # no JSON form (decided by the to_dict route)
+    return a == y.to_dict()
+
+
+def mutate_route(x, c):
+    """sequence on ONE object: x has been serialized / hashed by the routes above; now edit it in place into the content
+    of x2 and serialize again.  Reported: the bytes, the datum hash and the redeemer bytes of the edited object against
+    those of a FRESH object built from x2 (whose own bytes are decided against the reference in the sibling case)."""
+    y = build(c['x2'])
+    fresh = y.to_cbor()
+    fresh_hash = datum_hash(y).payload
+    x.to_cbor(); x.hash(); datum_hash(x)                      # whatever these remember must not survive the edit
+    morph(x, y)
+    r = Redeemer(x, ExecutionUnits(1, 2)); r.tag = RedeemerTag.SPEND
+    r2 = Redeemer(build(c['x2']), ExecutionUnits(1, 2)); r2.tag = RedeemerTag.SPEND
+    return {'enc': x.to_cbor().hex(), 'fresh': fresh.hex(),
+            'same': x.to_cbor() == fresh and datum_hash(x).payload == fresh_hash == blake(fresh) and x.hash().payload == fresh_hash
+            and r.to_cbor() == r2.to_cbor() and same_dict(x, y)}
 
 
 def guard_case(c):
